@@ -2,6 +2,7 @@ import Dashu.Driver.Loop
 import Dashu.Model.Float.Repr
 import Dashu.Gen.FloatNorm
 import Dashu.Model.Int.FloatConst
+import Dashu.Driver.CmpFrom
 /-
   C05 driver ops that need the float ARITHMETIC model of C03 (`Dashu.Model.Float`): values rounded through the
   borrowing / owning rounding routes of `Context` (`f.ctx`).  Linked into the `bits` group driver
@@ -88,6 +89,6 @@ def dispatchCtx : Dispatch := fun W op args =>
     let bad := (if isNorm B r then "" else " !model-noncanon")
       ++ (if p ≠ 0 ∧ r.digits B > p then " !model-digits" else "")
     pure ("ok " ++ intToHex r.signif ++ " " ++ decStr r.exp ++ " routes-agree" ++ bad)
-  | _, _ => none
+  | _, _ => Dashu.Driver.CmpFrom.dispatchFrom W op args   -- round 6: `f.from` (TryFrom<f32/f64> as a producer)
 
 end Dashu.Driver.CmpCtx
